@@ -16,82 +16,96 @@ import (
 )
 
 type Obl struct {
-	ID      string
-	Fn      string
-	Class   string // safe:nil, post, pre, inv, dec, frame, own, lock, cond, ...
-	Label   string
-	Ord     int
-	Path    string
-	Goal    string
-	Pos     token.Pos
-	Props   map[string]bool
-	Note    string
-	Struct  bool   // decided structurally (Goal is literally true/false)
-	Callee  string // for pre obligations
-	Result  string // unsat|sat|unknown|timeout|error
-	Solver  string
-	Ms      int64
-	Model   string
-	Raw     string
-	At      int // number of assumptions visible to this obligation (flow order)
+	ID     string
+	Fn     string
+	Class  string // safe:nil, post, pre, inv, dec, frame, own, lock, cond, ...
+	Label  string
+	Ord    int
+	Path   string
+	Goal   string
+	Pos    token.Pos
+	Props  map[string]bool
+	Note   string
+	Struct bool   // decided structurally (Goal is literally true/false)
+	Callee string // for pre obligations
+	Result string // unsat|sat|unknown|timeout|error
+	Solver string
+	Ms     int64
+	Model  string
+	Raw    string
+	At     int // number of assumptions visible to this obligation (flow order)
 }
 
 type loc struct {
 	kind, arr, ref, idx, sort string
-	t                          types.Type // type of the stored value
+	t                         types.Type // type of the stored value
 }
 
 type hstate map[string]int
 
+type storeRec struct {
+	ref  string
+	prev int
+}
+
 type passInfo struct {
-	arrays   map[string]string              // array -> sort
-	writes   map[ssa.Instruction][]string   // arrays written by instruction ("*" = all)
+	arrays map[string]string            // array -> sort
+	writes map[ssa.Instruction][]string // arrays written by instruction ("*" = all)
 }
 
 type enc struct {
-	w        *World
-	f        *ssa.Function
-	key      string
-	fc       *FuncContract
-	bv       bool
-	strTheory bool
-	decls    []string
-	declared map[string]bool
-	asserts  []string
-	obls     []*Obl
-	ordCount map[string]int
-	names    map[ssa.Value]string
-	heap     hstate
-	heapSort map[string]string
-	ver      map[string]int
-	reach    map[*ssa.BasicBlock]string
-	heapAt   map[*ssa.BasicBlock]hstate // at block exit
-	heapIn   map[*ssa.BasicBlock]hstate // at block entry (after merge/havoc)
-	entry    hstate
-	locs     map[ssa.Value]loc
-	fresh    int
-	notes    map[string]int
-	info     *passInfo // nil in pass 1
-	rec      *passInfo // recorded in this pass
-	back     map[[2]*ssa.BasicBlock]bool
-	headers  map[*ssa.BasicBlock]int // header -> loop ordinal (1-based)
-	loopBody map[*ssa.BasicBlock]map[*ssa.BasicBlock]bool
-	order    []*ssa.BasicBlock
-	localAlloc map[string]bool // refs allocated in this function (term names)
-	defers   []*ssa.Defer
-	curBlock *ssa.BasicBlock
-	curInstr ssa.Instruction
-	safeOnly bool // sweep mode: no functional contract of its own required
+	w           *World
+	f           *ssa.Function
+	key         string
+	fc          *FuncContract
+	bv          bool
+	strTheory   bool
+	decls       []string
+	declared    map[string]bool
+	asserts     []string
+	obls        []*Obl
+	ordCount    map[string]int
+	names       map[ssa.Value]string
+	heap        hstate
+	heapSort    map[string]string
+	ver         map[string]int
+	reach       map[*ssa.BasicBlock]string
+	heapAt      map[*ssa.BasicBlock]hstate // at block exit
+	heapIn      map[*ssa.BasicBlock]hstate // at block entry (after merge/havoc)
+	entry       hstate
+	locs        map[ssa.Value]loc
+	fresh       int
+	notes       map[string]int
+	info        *passInfo // nil in pass 1
+	rec         *passInfo // recorded in this pass
+	back        map[[2]*ssa.BasicBlock]bool
+	headers     map[*ssa.BasicBlock]int // header -> loop ordinal (1-based)
+	loopBody    map[*ssa.BasicBlock]map[*ssa.BasicBlock]bool
+	order       []*ssa.BasicBlock
+	localAlloc  map[string]bool // refs allocated in this function (term names)
+	defers      []*ssa.Defer
+	curBlock    *ssa.BasicBlock
+	curInstr    ssa.Instruction
+	safeOnly    bool            // sweep mode: no functional contract of its own required
 	assumptions map[string]bool // trusted/unmodelled things used, for evidence
-	callOrd  map[string]int
-	opts     *EncOpts
-	ghostInit bool
-	ok bool
-	entryAt int
-	lastModel map[string]string
-	usedSpecs map[string]bool
-	usedSites map[string]bool
-	priv      []privAlloc
+	callOrd     map[string]int
+	opts        *EncOpts
+	ghostInit   bool
+	ok          bool
+	entryAt     int
+	lastModel   map[string]string
+	usedSpecs   map[string]bool
+	usedSites   map[string]bool
+	priv        []privAlloc
+	taint       map[ssa.Value][2]string
+	lockUses    []lockUse
+	invTouched  []invObj
+	invDone     map[string]bool
+	invBusy     bool
+	curCallRefs []string
+	clockOf     map[string]int
+	storeOf     map[string]storeRec
+	inStore     bool
 }
 
 type EncOpts struct {
@@ -377,6 +391,8 @@ func (e *enc) typeFacts(n string, t types.Type) {
 	case "Ref":
 		e.assume(fmt.Sprintf("(>= %s 0)", n))
 	case "Iface":
+		// interfaces never hold typed nil pointers (established at every MakeInterface: safe:typed-nil)
+		e.assume(fmt.Sprintf("(=> (is-IPtr %s) (> (iptr %s) 0))", n, n))
 		// dynamic type must be a possible one for the static interface type
 		if it, ok := t.Underlying().(*types.Interface); ok && it.NumMethods() > 0 {
 			if c := e.ifaceMembership(n, t); c != "" {
@@ -483,6 +499,10 @@ func (e *enc) val(v ssa.Value) string {
 		return e.constVal(c)
 	case *ssa.Parameter:
 		n := e.havoc(c)
+		if e.sortOf(c.Type()) == "Iface" {
+			e.harr("G_now", "Int")
+			e.assume(fmt.Sprintf("(=> (or (is-IPtr %s) (is-IMap %s)) (< (birth (ite (is-IPtr %s) (iptr %s) (imap %s))) |G_now@0|))", n, n, n, n, n))
+		}
 		if _, ok := c.Type().Underlying().(*types.Pointer); ok {
 			e.assume(e.allocated(n, e.entryState()))
 			if e.opts != nil && e.opts.NonnilParams {
@@ -560,11 +580,35 @@ func (e *enc) hnameIn(a string, st hstate) string {
 
 func (e *enc) hname(a string) string { return e.hnameIn(a, e.heap) }
 
+// birthAxiom: every reference stored in this version of the array was allocated before the
+// version came into being.
+func (e *enc) birthAxiom(a string, v int) {
+	srt := e.heapSort[a]
+	if a == "G_now" || isGhostArr(a) || !e.w.stableArr(a) {
+		return
+	}
+	cv := e.clockOf[fmt.Sprintf("%s@%d", a, v)]
+	if _, isStore := e.storeOf[fmt.Sprintf("%s@%d", a, v)]; isStore {
+		return // derived from its predecessor by the array theory
+	}
+	name := fmt.Sprintf("|%s@%d|", a, v)
+	switch srt {
+	case "(Array Ref Ref)":
+		e.assume(fmt.Sprintf("(forall ((r Ref)) (! (or (= (select %s r) 0) (< (birth (select %s r)) |G_now@%d|)) :pattern ((select %s r))))", name, name, cv, name))
+	case "(Array Ref Iface)":
+		e.assume(fmt.Sprintf("(forall ((r Ref)) (! (=> (is-IPtr (select %s r)) (< (birth (iptr (select %s r))) |G_now@%d|)) :pattern ((select %s r))))", name, name, cv, name))
+	}
+}
+
 func (e *enc) harr(a, sort string) {
 	if _, ok := e.heapSort[a]; !ok {
 		e.heapSort[a] = sort
 		e.ver[a] = 0
 		e.decl(fmt.Sprintf("|%s@0|", a), sort)
+		if a != "G_now" {
+			e.decl("|G_now@0|", "Int")
+			e.birthAxiom(a, 0)
+		}
 		if e.rec != nil {
 			e.rec.arrays[a] = sort
 		}
@@ -577,6 +621,15 @@ func (e *enc) harr(a, sort string) {
 func (e *enc) bump(a string) string {
 	e.ver[a]++
 	e.heap[a] = e.ver[a]
+	if a != "G_now" {
+		if e.clockOf == nil {
+			e.clockOf = map[string]int{}
+		}
+		e.clockOf[fmt.Sprintf("%s@%d", a, e.ver[a])] = e.heap["G_now"]
+		if !e.inStore {
+			e.birthAxiom(a, e.ver[a])
+		}
+	}
 	n := e.hname(a)
 	e.decl(n, e.heapSort[a])
 	if e.rec != nil && e.curInstr != nil {
@@ -595,7 +648,12 @@ func (e *enc) havocHeap(keep func(string) bool) {
 		arrs = append(arrs, a)
 	}
 	sort.Strings(arrs)
-	for _, a := range arrs {
+	nowPre := e.now(e.heap)
+	arrs = append([]string{"G_now"}, arrs...) // the clock moves first: new array versions may hold references born during the call
+	for k, a := range arrs {
+		if a == "G_now" && k > 0 {
+			continue
+		}
 		if a == "G_now" {
 			old := e.hname(a)
 			nv := e.bump(a)
@@ -613,6 +671,17 @@ func (e *enc) havocHeap(keep func(string) bool) {
 		}
 		old := e.hname(a)
 		nv := e.bump(a)
+		if e.w.stableArr(a) {
+			conds := []string{}
+			for _, r := range e.curCallRefs {
+				conds = append(conds, fmt.Sprintf("(not (= r %s))", r))
+			}
+			c := "true"
+			if len(conds) > 0 {
+				c = "(and " + strings.Join(conds, " ") + " true)"
+			}
+			e.assume(fmt.Sprintf("(forall ((r Ref)) (! (=> (and (< (birth r) %s) %s) (= (select %s r) (select %s r))) :pattern ((select %s r))))", nowPre, c, nv, old, nv))
+		}
 		for _, p := range e.priv {
 			if p.arrs[a] {
 				e.assume(fmt.Sprintf("(= (select %s %s) (select %s %s))", nv, p.ref, old, p.ref))
@@ -657,7 +726,14 @@ func (e *enc) store(l loc, v string) {
 	case "field", "cell":
 		e.harr(l.arr, e.arrSortFor(l))
 		old := e.hname(l.arr)
+		prev := e.heap[l.arr]
+		e.inStore = true
 		nv := e.bump(l.arr)
+		e.inStore = false
+		if e.storeOf == nil {
+			e.storeOf = map[string]storeRec{}
+		}
+		e.storeOf[fmt.Sprintf("%s@%d", l.arr, e.heap[l.arr])] = storeRec{l.ref, prev}
 		e.assume(fmt.Sprintf("(= %s (store %s %s %s))", nv, old, l.ref, v))
 	case "elem":
 		e.harr(l.arr, e.arrSortFor(l))
@@ -675,6 +751,30 @@ func (e *enc) now(st hstate) string {
 
 func (e *enc) allocated(r string, st hstate) string {
 	return fmt.Sprintf("(or (= %s 0) (< (birth %s) %s))", r, r, e.now(st))
+}
+
+// allocatedIn: a reference read from version st[arr] of a heap array was allocated before that
+// version came into being.
+func (e *enc) allocatedIn(r, arr string, st hstate, at ...string) string {
+	v := 0
+	if st != nil {
+		v = st[arr]
+	}
+	e.harr("G_now", "Int")
+	var alts []string
+	alts = append(alts, fmt.Sprintf("(= %s 0)", r))
+	// versions made by a single store differ from their predecessor only at the stored reference
+	for d := 0; d < 8 && len(at) > 0; d++ {
+		so, ok := e.storeOf[fmt.Sprintf("%s@%d", arr, v)]
+		if !ok {
+			break
+		}
+		alts = append(alts, fmt.Sprintf("(= %s %s)", at[0], so.ref))
+		v = so.prev
+	}
+	cv := e.clockOf[fmt.Sprintf("%s@%d", arr, v)] // 0 = entry clock for version 0
+	alts = append(alts, fmt.Sprintf("(< (birth %s) |G_now@%d|)", r, cv))
+	return "(or " + strings.Join(alts, " ") + ")"
 }
 
 func (e *enc) allocFresh(n string) {
@@ -709,7 +809,12 @@ func (e *enc) addI(class, label string, ins ssa.Instruction, R, goal string) *Ob
 	if !pos.IsValid() {
 		pos = e.nearPos(ins)
 	}
-	return e.add(class, label, pos, R, goal)
+	o := e.add(class, label, pos, R, goal)
+	if class == "safe" && goal != "false" {
+		// execution continues past this point only if the check succeeded (assumptions are flow-ordered)
+		e.assumeAt(R, goal)
+	}
+	return o
 }
 
 func (e *enc) nearPos(ins ssa.Instruction) token.Pos {
